@@ -96,7 +96,7 @@ def estimate_case(rng, dn, qn):
     all ones, the quotient is (nearly) all ones; the top limb of d is tiny or full."""
     s = rng.choice([0, 0, 0, 1, 2, 3, 31, 62, 63])            # bits of the top limb above bit 0
     topbit = 64 * (dn - 1) + s
-    z = 64 * qn - 1 + rng.choice([0, 0, 0, 1, -1, 2, -2, 3, 64, -64, rng.randrange(-8, 9)])
+    z = 64 * qn - 1 + rng.choice([0, 0, 0, 1, -1, 2, -2, 3, 64, -64, rng.randrange(-8, 9), rng.randrange(-70, 71), rng.randrange(-70, 71)])
     low = max(0, topbit - max(0, z))
     lowpart = (1 << low) - 1
     k = rng.random()
@@ -171,6 +171,14 @@ def cases(ctx, tier):
         qn = rng.randrange(1, dn) if rng.random() < 0.8 else rng.randrange(1, 2 * dn)
         n, nn, d = estimate_case(rng, dn, qn)
         out.append(('mpn_tdiv_qr %x %x %x %x' % (nn, n, dn, d), 'tdiv_qr-estimate2'))
+    # the quotient-only routines (mpz_tdiv_q / fdiv_q / cdiv_q use mpn_tdiv_q, which estimates a short quotient from truncated
+    # operands and multiplies back only when the fraction limb below the quotient is small): divisors much longer than the quotient
+    for _ in range(4000 if quick else 40000):
+        dn = rng.choice([6, 7, 8, 9, 10, 11, 13, 13, 17, 20, 26, 33, 40])
+        qn = rng.randrange(1, max(2, dn - 5)) if rng.random() < 0.8 else rng.randrange(1, dn + 2)
+        n, nn, d = estimate_case(rng, dn, qn)
+        f = rng.choice(['tdiv_q', 'tdiv_q', 'tdiv_q', 'fdiv_q', 'cdiv_q'])
+        out.append(('mpz_%s %s %s %d' % (f, hx(n * rng.choice([1, 1, -1])), hx(d * rng.choice([1, 1, -1])), rng.choice([0, 0, 1, 2])), 'mpz_q-only-estimate'))
     # leading limbs of n equal those of d
     for _ in range(300 if quick else 3000):
         dn = rng.randrange(2, 20); d = divisor(rng, dn)
